@@ -53,6 +53,21 @@ def tok_from_json(j):
     return dl.Token(mods, bk, _tup(base) if bk == "sym" else base, doc, docpos)
 
 
+_ANN_POOL = {}
+
+
+def annotation(cat, at, spec):
+    """Annotation objects live long in real programs (a function's annotations are built once and checked on
+    every call, under ever different bindings): the same object is reused for the same (category, array type,
+    spec) across steps, histories and Hypothesis examples of this process."""
+    key = (cat, at, spec)
+    if key not in _ANN_POOL:
+        if len(_ANN_POOL) > 20000:
+            _ANN_POOL.clear()
+        _ANN_POOL[key] = ga.category(cat)[ga.array_type(at), spec]
+    return _ANN_POOL[key]
+
+
 class History:
     """Real context and model context advanced in lock-step."""
 
@@ -71,7 +86,7 @@ class History:
         toks = [tok_from_json(j) for j in s["tokens"]]
         spec = dl.spec_spelling(toks, s.get("seps"))
         meanings = [t.meaning() for t in toks]
-        ann = ga.category(s["cat"])[ga.array_type(s["at"]), spec]
+        ann = annotation(s["cat"], s["at"], spec)
         if s.get("nonarray") is not None:
             value = ga.NON_ARRAYS[s["nonarray"]]
             type_ok = dtype_ok = False
@@ -138,16 +153,36 @@ def in_context(use_args, body):
     if use_args:
 
         @jaxtyped(typechecker=None)
-        def f(hn, hm, hobj):
+        def f(hn, hm, hobj, n, a):
             return body()
 
-        return f(gd.HOLE_ARGS["hn"], gd.HOLE_ARGS["hm"], HObj)
+        return f(gd.HOLE_ARGS["hn"], gd.HOLE_ARGS["hm"], HObj, gd.HOLE_ARGS["n"], gd.HOLE_ARGS["a"])
     with jaxtyped("context"):
         return body()
 
 
+# a small family of specs without any plain named axis (their verdict depends on the context only through symbolic
+# axes): the same annotation object is met again and again with the same few shapes under different bindings
+_S = lambda e, mods="": dl.Token(mods, "sym", e)  # noqa: E731
+CONTEXT_ONLY_SPECS = [
+    [_S(("bin", "+", ("name", "a"), ("int", 1)))],
+    [_S(("bin", "*", ("int", 2), ("name", "a")))],
+    [_S(("bin", "+", ("name", "a"), ("name", "b")))],
+    [_S(("bin", "-", ("name", "a"), ("int", 1))), dl.Token("", "int", 3)],
+    [dl.Token("_", "empty", None), _S(("bin", "+", ("name", "a"), ("int", 1)))],
+    [_S(("bin", "+", ("name", "n"), ("int", 1)), "#")],
+    [dl.Token("", "ellipsis", None), _S(("call", "max", ("name", "a"), ("name", "b")))],
+]
+
+
 def draw_step(data, hist: History, *, jax_ok=False, allow_q_prob=0.1):
     m = hist.m
+    if gd.chance(data.draw, 0.1):
+        toks = data.draw(st.sampled_from(CONTEXT_ONLY_SPECS), label="context-only spec")
+        shape = data.draw(st.sampled_from([(4,), (3,), (2,), (4, 3), (3, 3), (1,)]))
+        if len(toks) == 2 and len(shape) == 1:
+            shape = shape + (3,)
+        return {"tokens": [tok_json(t) for t in toks], "cat": "Shaped", "at": "np", "vk": "np", "dtype": "float32", "shape": list(shape)}
     allow_q = gd.chance(data.draw, allow_q_prob)
     toks = data.draw(
         gd.legal_spec(bound=sorted(m.single), holes=hist.use_args, allow_q=allow_q), label="spec"
